@@ -857,6 +857,8 @@ def _swing_client_run(pre, cur, seed, estimator, fault=None):
             pi_method=estimator,
             features=(),
             aggregates=["postal_code", "unit"],
+            # both unreporting policies (the feeds are complete in the requested columns, so the policy must not matter)
+            handle_unreporting=("zero" if seed % 2 == 1 else "drop"),
         )
     return rec.calls
 
@@ -868,6 +870,13 @@ def job_swing_run(arg):
     verdict on the regression weights."""
     seed, n_rep, n_non, estimator = arg
     pre, cur = gate_election(n_rep, n_non, seed, lo=15, hi=400)
+    if seed % 5 == 3:
+        # a fully counted unit whose feed row lacks a count that nobody asked for (a provider that reports turnout and
+        # one party first): with turnout / dem as estimands the row is complete, under either unreporting policy
+        # (seeded change C05_G)
+        k = cur.index[cur.percent_expected_vote == 100][1]
+        cur["results_gop"] = cur["results_gop"].astype(float)
+        cur.loc[k, "results_gop"] = float("nan")
     try:
         calls = _swing_client_run(pre, cur, seed, estimator)
         hamlet_calls = _swing_client_run(*_hamletise(pre.copy(), cur.copy()), seed, estimator) if seed % 4 == 0 else []
